@@ -198,6 +198,14 @@ def main():
         text = "\n".join(o) + "\n"
         changed = write_if_changed(os.path.join(OUT, fname), text)
         print(fname, "changed" if changed else "unchanged", hashlib.sha256(text.encode()).hexdigest()[:16])
+    # per-property translators: translator/gen_cNN.py, each with main() writing coq/Gen/T_CNN.v (fail-closed)
+    import glob, importlib
+    here = os.path.dirname(os.path.abspath(__file__))
+    if here not in sys.path:
+        sys.path.insert(0, here)
+    for path in sorted(glob.glob(os.path.join(here, "gen_c[0-9][0-9].py"))):
+        mod = importlib.import_module(os.path.basename(path)[:-3])
+        mod.main()
 
 
 if __name__ == "__main__":
